@@ -2,6 +2,7 @@ package main
 
 import (
 	"fmt"
+	"go/token"
 	"go/types"
 	"sort"
 	"strings"
@@ -286,7 +287,7 @@ func c05PortableSchedule(r *Report, p *Prog, arch string) {
 	if ok {
 		for i := range stores["enc"] {
 			e, d := stores["enc"][i], stores["dec"][i]
-			if e.val != d.val || !e.idx.Add(d.idx).Equal(linConst(31)) {
+			if !(e.val == d.val || sameLocalLoad(e.val, d.val)) || !e.idx.Add(d.idx).Equal(linConst(31)) {
 				ok = false
 				detail = fmt.Sprintf("pair %d: enc[%s] and dec[%s] (indices must add up to 31, same value)", i, e.idx.String(), d.idx.String())
 			}
@@ -361,4 +362,86 @@ func lanePart(o Operand) string {
 		return "." + o.Arr
 	}
 	return ""
+}
+
+// sameLocalLoad: two loads of the same element of a local array (k[j] read twice) with nothing in between that can write
+// it: same block, same address expression, and every instruction between them is neither a call nor a store into that
+// local allocation (a store through a parameter cannot alias a fresh local).
+func sameLocalLoad(a, b ssa.Value) bool {
+	la, ok1 := a.(*ssa.UnOp)
+	lb, ok2 := b.(*ssa.UnOp)
+	if !ok1 || !ok2 || la.Op != token.MUL || lb.Op != token.MUL || la.Block() != lb.Block() {
+		return false
+	}
+	rootOf := func(v ssa.Value) (*ssa.Alloc, ssa.Value, bool) {
+		ia, ok := v.(*ssa.IndexAddr)
+		if !ok {
+			return nil, nil, false
+		}
+		al, ok := ia.X.(*ssa.Alloc)
+		return al, ia.Index, ok
+	}
+	ra, ia, ok1 := rootOf(la.X)
+	rb, ib, ok2 := rootOf(lb.X)
+	if !ok1 || !ok2 || ra != rb || !samePureExpr(ia, ib, 0) {
+		return false
+	}
+	between := false
+	for _, in := range la.Block().Instrs {
+		switch {
+		case in == ssa.Instruction(la) || in == ssa.Instruction(lb):
+			if between {
+				return true
+			}
+			between = true
+		case between:
+			switch x := in.(type) {
+			case ssa.CallInstruction:
+				return false
+			case *ssa.Store:
+				addr := x.Addr
+				for {
+					if i2, ok := addr.(*ssa.IndexAddr); ok {
+						addr = i2.X
+						continue
+					}
+					if f2, ok := addr.(*ssa.FieldAddr); ok {
+						addr = f2.X
+						continue
+					}
+					break
+				}
+				if _, isParam := addr.(*ssa.Parameter); !isParam {
+					return false
+				}
+			}
+		}
+	}
+	return false
+}
+
+// samePureExpr: two SSA values are the same pure expression (i&3 spelled twice): identical, equal constants, or the same
+// operator applied to operands that are the same pure expressions
+func samePureExpr(a, b ssa.Value, depth int) bool {
+	if a == b {
+		return true
+	}
+	if depth > 6 {
+		return false
+	}
+	switch x := a.(type) {
+	case *ssa.Const:
+		y, ok := b.(*ssa.Const)
+		return ok && x.Value != nil && y.Value != nil && x.Value.ExactString() == y.Value.ExactString() && types.Identical(x.Type(), y.Type())
+	case *ssa.BinOp:
+		y, ok := b.(*ssa.BinOp)
+		return ok && x.Op == y.Op && samePureExpr(x.X, y.X, depth+1) && samePureExpr(x.Y, y.Y, depth+1)
+	case *ssa.Convert:
+		y, ok := b.(*ssa.Convert)
+		return ok && types.Identical(x.Type(), y.Type()) && samePureExpr(x.X, y.X, depth+1)
+	case *ssa.UnOp:
+		y, ok := b.(*ssa.UnOp)
+		return ok && x.Op == y.Op && x.Op != token.MUL && x.Op != token.ARROW && samePureExpr(x.X, y.X, depth+1)
+	}
+	return false
 }
